@@ -2,7 +2,7 @@
 META = {
     "level": 'fault_enumeration',
     "technique": 'call-log oracle on the real ShareCrawler (and LeaseCheckingCrawler) driven by virtual time: enumerated subsets of time-slice interruption points, restarts at every slice boundary, and process kills at every hook and every file-system step of save_state, each followed by a restart from the state file',
-    "text": 'Runs the real allmydata.storage.crawler.ShareCrawler (recording subclass; service started, slices fired by the virtual reactor) on a fabricated share directory with <=6 buckets over the first, a middle and the last of the 1024 prefixes. storage.crawler.time is a virtual clock that jumps past cpu_slice at chosen points, forcing TimeSliceExceeded there. Enumerated: every subset of interruption points {after each bucket, end of each non-empty prefix and of its neighbour prefixes} for each layout (thorough: all subsets of every layout, up to 2^13, x all 3 restart modes for the <=10-point layouts and a rotating mode for the 13-point ones; quick: all subsets of the <=6-point layouts with a rotating mode, seeded samples of the larger ones), single interruptions at prefix ends across the whole ring, and single kills (crawler object abandoned, new crawler built on the same state file) before/after every process_bucket, in every started_cycle/finished_prefix/finished_cycle hook and at 5 steps inside every save_state (before the temp file is opened, temp file empty, half written, fully written but not renamed, after rename), under 4 interruption schedules; plus seeded multi-fault runs with buckets added/removed mid-cycle (not judged) and 4-cycle runs over one or two non-empty prefixes in which buckets are added and removed BETWEEN cycles, while the crawler sleeps (a bucket added there exists throughout the next cycle and is judged), on the same crawler object and across restarts. A second family runs the real LeaseCheckingCrawler on real shares and restarts it from its saved state mid-cycle. Oracle per completed cycle: every bucket present throughout is passed to process_bucket exactly once if no kill happened inside a slice of that cycle, at least once otherwise; process_bucket arguments are consistent; last-cycle-finished (get_state() and the JSON state file) advances by exactly one per completed cycle and never goes back.',
+    "text": 'Runs the real allmydata.storage.crawler.ShareCrawler (recording subclass; service started, slices fired by the virtual reactor) on a fabricated share directory with <=6 buckets over the first, a middle and the last of the 1024 prefixes. storage.crawler.time is a virtual clock that jumps past cpu_slice at chosen points, forcing TimeSliceExceeded there. Enumerated: every subset of interruption points {after each bucket, end of each non-empty prefix and of its neighbour prefixes} for each layout (thorough: all subsets of every layout, up to 2^13, x all 3 restart modes for the <=10-point layouts and a rotating mode for the 13-point ones; quick: all subsets of the <=6-point layouts with a rotating mode, seeded samples of the larger ones), single interruptions at prefix ends across the whole ring, and single kills (crawler object abandoned, new crawler built on the same state file) before/after every process_bucket, in every started_cycle/finished_prefix/finished_cycle hook and at 5 steps inside every save_state (before the temp file is opened, temp file empty, half written, fully written but not renamed, after rename), under 4 interruption schedules; plus seeded multi-fault runs with buckets added/removed mid-cycle (not judged) and 4-cycle runs over one or two non-empty prefixes in which buckets are added and removed BETWEEN cycles, while the crawler sleeps (a bucket added there exists throughout the next cycle and is judged), on the same crawler object and across restarts; and runs in which the slice ends inside a prefix after its k-th bucket and that bucket (or an earlier / later one) is removed before the crawl resumes on the same object or on a new crawler built from the state file. A second family runs the real LeaseCheckingCrawler on real shares and restarts it from its saved state mid-cycle: after leased buckets, after empty prefixes only (no lease counted yet), and after a bucket whose mutable slot is then deleted through the storage API before the resume. Oracle per completed cycle: every bucket present throughout is passed to process_bucket exactly once if no kill happened inside a slice of that cycle, at least once otherwise; process_bucket arguments are consistent; last-cycle-finished (get_state() and the JSON state file) advances by exactly one per completed cycle and never goes back.',
     "note": 'Trusts the recording subclass, the virtual clock shim and the emulation of a crash inside save_state (the harness performs the same open/write/rename sequence as _dump_json_to_file + move_into_place and stops at the chosen step; torn writes below file granularity are C29 territory). Buckets added or removed mid-cycle are not judged.',
 }
 LEVEL = "fault_enumeration"
@@ -66,6 +66,8 @@ class Harness(object):
         self.incarnations = 0
         self.latest_cycle = 0
         self.points_seen = []               # every hook point reached, for kill enumeration
+        self.after_slice = {}               # {(cycle, kind, arg): callable} run once the slice containing the point ended
+        self.pending_between = []
         self.members = {}                   # cycle -> set of buckets present throughout it (when it differs from static)
         self.boundary = {}                  # finished cycle -> callable() -> membership of the following cycles
         self.max_lcf = -1
@@ -78,6 +80,9 @@ class Harness(object):
         act = self.actions.pop(p, None)
         if act is not None:
             act()
+        act = self.after_slice.pop(p, None)
+        if act is not None:
+            self.pending_between.append(act)
         if self.kill_at == p:
             self.kill_at = None
             raise Kill(p)
@@ -200,6 +205,11 @@ class Harness(object):
             self.start()
             return False
         self.observe()
+        # scripted file-system changes between two slices (crawler asleep, state saved)
+        pending, self.pending_between = self.pending_between, []
+        for act in pending:
+            act()
+            self.ck.hit("bucket-removed-between-slices")
         return True
 
     def run_until(self, cycles, restart_mode=None, max_slices=400):
@@ -560,6 +570,46 @@ def run(ck):
             return [p for p in pts if p[0] == "prefix-end"]
         return pts[::2]
 
+    # ------------------------------------------------------------ E7 a bucket disappears BETWEEN two slices
+    # the slice ends inside a prefix right after its k-th bucket (the resume marker); before the crawl resumes
+    # (same object / new crawler from the state file) the marker bucket, an earlier one or a later one is removed,
+    # as a mutable-slot delete does.  The removed bucket is not judged; every other bucket is (exactly once).
+    e7_layouts = [(3, 0, 0), (0, 4, 0), (0, 0, 3), (2, 0, 3), (3, 3, 0)]
+    e7n = 0
+    for layout in e7_layouts:
+        names = layout_buckets(layout)
+        for pfx, n in zip(P3, layout):
+            mine_b = [b for b in names if b[:2] == pfx]
+            if n < 2:
+                continue
+            for k in range(n):
+                for which in ("marker", "earlier", "later"):
+                    if (which == "earlier" and k == 0) or (which == "later" and k == n - 1):
+                        continue
+                    for mode in MODES:
+                        e7n += 1
+                        if ck.tier == "quick" and which != "marker" and (e7n + ck.seed) % 2:
+                            continue
+                        if not mine():
+                            continue
+                        if (not ck.more(min_cases=10 ** 9)):
+                            break
+                        site = Site(layout)
+                        try:
+                            h = site.harness()
+                            marker = mine_b[k]
+                            victim = {"marker": marker, "earlier": mine_b[0], "later": mine_b[-1]}[which]
+                            h.jumps.add((0, "after-bucket", marker))
+                            h.dynamic.add(victim)
+                            h.static.discard(victim)
+                            h.after_slice[(0, "after-bucket", marker)] = (lambda site=site, v=victim: site.remove_bucket(v))
+                            plan = {"family": "removed-between-slices", "layout": layout, "slice_ends_after": marker,
+                                    "removed_before_resume": victim, "restart_mode": mode}
+                            guarded(h, "removed-between-slices", ("r", layout, pfx, k, which, mode), plan,
+                                    lambda h, mode=mode: h.run_until(2, mode))
+                        finally:
+                            site.close()
+
     # ------------------------------------------------------------ E6 buckets added/removed BETWEEN cycles
     # one or two non-empty prefixes, 4 cycles, membership changes only while the crawler sleeps between two
     # cycles: every bucket present at the start of a cycle exists throughout it and is judged
@@ -631,10 +681,26 @@ def run(ck):
                 return si
         raise AssertionError(pfx)
 
-    lease_plans = [("same-object", None, "after-every-bucket"), ("stopService-restart", "stop", "after-every-bucket"),
-                   ("kill-sleeping-restart", "kill-sleeping", "after-every-bucket"),
-                   ("stopService-restart", "stop", "every-prefix-point"), ("same-object", None, "none")]
-    for (name, mode, sched) in lease_plans:
+    LP = [P3[0], P3[0], P3[1], P3[2]]          # buckets in the very first prefix: leases are counted in slice 1
+    LATE = [P3[1], P3[1], P3[1], P3[2]]        # nothing in the first 517 prefixes; 3 buckets in one prefix
+    lease_plans = [
+        dict(name="same-object", mode=None, where=LP, sched="after-every-bucket"),
+        dict(name="stopService-restart", mode="stop", where=LP, sched="after-every-bucket"),
+        dict(name="kill-sleeping-restart", mode="kill-sleeping", where=LP, sched="after-every-bucket"),
+        dict(name="stopService-restart", mode="stop", where=LP, sched="every-prefix-point"),
+        dict(name="same-object", mode=None, where=LP, sched="none"),
+        # state saved after EMPTY prefixes only (no lease counted yet), restart, leased shares later in the cycle
+        dict(name="stopService-restart", mode="stop", where=LATE, sched="empty-prefix-ends"),
+        dict(name="kill-sleeping-restart", mode="kill-sleeping", where=LATE, sched="empty-prefix-ends"),
+        dict(name="same-object", mode=None, where=LATE, sched="empty-prefix-ends"),
+        # slice ends after the 2nd bucket of a prefix (a mutable slot); its owner deletes the slot through the
+        # storage API (the server removes the empty bucket directory) before the crawl resumes
+        dict(name="stopService-restart", mode="stop", where=LATE, sched="after-2nd-bucket", delete_marker=True),
+        dict(name="kill-sleeping-restart", mode="kill-sleeping", where=LATE, sched="after-2nd-bucket", delete_marker=True),
+        dict(name="same-object", mode=None, where=LATE, sched="after-2nd-bucket", delete_marker=True),
+    ]
+    for lp in lease_plans:
+        name, mode, sched = lp["name"], lp["mode"], lp["sched"]
         if not mine() or (not ck.more(min_cases=10 ** 9)):
             continue
         d = tempfile.mkdtemp(prefix="vf-")
@@ -643,7 +709,8 @@ def run(ck):
             clock.advance(env.reactor.seconds())
             ss = StorageServer(d, b"\x27" * 20, clock=clock)
             buckets = []
-            for j, pfx in enumerate([P3[0], P3[0], P3[1], P3[2]]):
+            sis = []
+            for j, pfx in enumerate(lp["where"]):
                 si = si_for_prefix(pfx, j + 1)
                 if j % 2 == 0:
                     _, wr = ss.allocate_buckets(si, bytes([j + 1]) * 32, bytes([j + 65]) * 32, {0}, 20)
@@ -653,6 +720,7 @@ def run(ck):
                     ss.slot_testv_and_readv_and_writev(si, (b"w" * 32, bytes([j + 1]) * 32, bytes([j + 65]) * 32),
                                                        {0: ([], [(0, b"m" * 20)], None)}, [])
                 buckets.append(si_b2a(si).decode("ascii"))
+                sis.append(si)
             statefile = os.path.join(d, "lease_checker.state")
             historyfile = os.path.join(d, "lease_checker.history")
 
@@ -662,10 +730,27 @@ def run(ck):
                 c.hx = h
                 return c
             h = Harness(ck, mods, ss.sharedir, statefile, buckets, make)
-            layout = (2, 1, 1)
-            for kind, arg in schedule(sched, points_for(layout, sorted(buckets))):
-                h.jumps.add((0, kind, arg))
-            plan = {"family": "lease-checker", "restart_mode": name, "schedule": sched}
+            if sched == "empty-prefix-ends":
+                for pfx in (prefixes[0], prefixes[2], prefixes[300]):
+                    h.jumps.add((0, "prefix-end", pfx))
+            elif sched == "after-2nd-bucket":
+                marker = buckets[1]
+                h.jumps.add((0, "after-bucket", marker))
+                if lp.get("delete_marker"):
+                    def delete_slot(ss=ss, si=sis[1]):
+                        ok, _ = ss.slot_testv_and_readv_and_writev(
+                            si, (b"w" * 32, bytes([2]) * 32, bytes([66]) * 32), {0: ([], [], 0)}, [])
+                        assert ok and not os.path.exists(os.path.join(ss.sharedir, si_b2a(si).decode("ascii")[:2],
+                                                                      si_b2a(si).decode("ascii")))
+                    h.after_slice[(0, "after-bucket", marker)] = delete_slot
+                    h.dynamic.add(marker)
+                    h.static.discard(marker)
+            else:
+                layout = (2, 1, 1)
+                for kind, arg in schedule(sched, points_for(layout, sorted(buckets))):
+                    h.jumps.add((0, kind, arg))
+            plan = {"family": "lease-checker", "restart_mode": name, "schedule": sched,
+                    "bucket_prefixes": lp["where"]}
             ck.hit("lease-checker-family")
             guarded(h, "lease-checker-restart", ("l", name, sched), plan, lambda h, mode=mode: h.run_until(2, mode))
         finally:
@@ -806,6 +891,7 @@ def run(ck):
     ck.require_reach("time-slice-forced", "kill-inside-slice", "kill-inside-save-state",
                      "restart-after-stopService", "restart-after-kill-while-sleeping",
                      "buckets-changed-between-cycles", "bucket-added-between-cycles-judged",
+                     "bucket-removed-between-slices",
                      "duplicate-work-after-kill", "lease-checker-family")
 
 
